@@ -145,6 +145,18 @@ def mat_seq(items):
     return [mat_set(it['config'], it.get('cwd')) for it in items]
 
 
+def mat_overwrite(config, dir_a, dir_b):
+    """In THIS process: materialize in dir_a; overwrite the data files of dir_a with those of dir_b (same names: the same
+    mapping over another table); materialize again.  Returns both results."""
+    import shutil as _sh
+    r1 = mat_set(config, dir_a)
+    for fn in os.listdir(dir_b):
+        if not fn.endswith(('.ttl', '.ini')):
+            _sh.copy(os.path.join(dir_b, fn), os.path.join(dir_a, fn))
+    r2 = mat_set(config, dir_a)
+    return [r1, r2]
+
+
 def canon_values(values, datatype, termtype='http://w3id.org/rml/Literal', kind='reference'):
     """Drives materializer._materialize_template on one-row frames: the rendered object term for each value under the
     given datatype (the canonicalisation + escaping path), or the exception."""
